@@ -26,6 +26,7 @@ theorem C03_inv_send (accts : List Addr) (hn : accts.Nodup) (R : Addr) (s s' : S
     (u x : Int) (hfR : frm ≠ R) (htR : to ≠ R) (hf : frm ∈ accts) (ht : to ∈ accts)
     (h : Inv accts R s) (hok : send R s frm to u x = .ok s') : Inv accts R s' := by
   unfold send at hok
+  simp only [hfR, htR, or_self, ite_false] at hok
   split at hok
   · cases hok
   · rename_i s1 h1
@@ -47,6 +48,7 @@ theorem C03_send_exact (R : Addr) (s s' : St) (frm to : Addr) (u x : Int)
   have hRt : R ≠ to := fun e => htR e.symm
   have hne' : ¬ to = frm := fun e => hne e.symm
   unfold send at hok
+  simp only [hfR, htR, or_self, ite_false] at hok
   split at hok
   · cases hok
   · rename_i s1 h1
@@ -84,6 +86,8 @@ theorem C03_send_self_noop (R : Addr) (s s' : St) (a : Addr) (u x : Int)
     (∀ r, s'.bal r = s.bal r) ∧ s'.frac = s.frac ∧ s'.rem = s.rem ∧ s'.supply = s.supply ∧
     s'.locked = s.locked := by
   unfold send at hok
+  split at hok
+  · cases hok
   split at hok
   · cases hok
   · rename_i s1 h1
@@ -215,12 +219,13 @@ theorem C03_burn_exact (R : Addr) (s s' : St) (m : Addr) (x : Int) (hmR : m ≠ 
     `SendCoinsFromAccountToModule`, blocked recipients are refused, and mint/burn on the reserve or
     without permission abort. -/
 theorem C03_guards (R : Addr) (blocked : Addr → Bool) (s : St) (a b : Addr) (u x : Int) :
+    send R s R b u x = .err ∧ send R s a R u x = .err ∧
     sendModuleToAccount R blocked s R b u x = .err ∧
     (blocked b = true → sendModuleToAccount R blocked s a b u x = .err) ∧
     sendAccountToModule R s a R u x = .err ∧
     mint R s R true u x = .panic ∧ burn R s R true u x = .panic ∧
     (a ≠ R → mint R s a false u x = .panic) ∧ (a ≠ R → burn R s a false u x = .panic) := by
-  refine ⟨by simp [sendModuleToAccount], ?_, by simp [sendAccountToModule], by simp [mint],
+  refine ⟨by simp [send], by simp [send], by simp [sendModuleToAccount], ?_, by simp [sendAccountToModule], by simp [mint],
     by simp [burn], ?_, ?_⟩
   · intro hb; unfold sendModuleToAccount; split <;> simp [hb]
   · intro h; simp [mint, h]
